@@ -354,6 +354,37 @@ def _compare_paths(live_paths, ref_paths, effects, outcome_norm, rn,
                             % len(comp)},
                     "live_paths": len(live_paths),
                     "ref_paths": len(ref_paths)}
+        # Dually: a live path that returns (or raises a configuration error)
+        # under an observation the reference does not make, while every
+        # reference row compatible with it behaves differently, is a
+        # violation -- whatever the reference observes on those inputs, the
+        # live code does something else.  (Paths ending in an internal error
+        # class are left out: defensive checks that can never fire.)
+        for lp, lval, known, unk, lo in lvals:
+            if not unk:
+                continue
+            if lo[0] == "raise" and not ("ZConfig" in str(lo[1])
+                                         or "caught:" in str(lo[1])):
+                continue
+            comp = [(rval, ro) for rval, ro in rvals
+                    if _compatible(rval, known)]
+            if comp and all(ro != lo for _, ro in comp):
+                # show the row that differs most (another kind of outcome)
+                comp.sort(key=lambda c: c[1][:2] == lo[:2])
+                rval, ro = comp[0]
+                return {"verdict": "violation", "rows": rows, "witness": {
+                    "valuation": {A.fmt_atom(a): v for a, v in lval.items()},
+                    "live": _show(lo),
+                    "reference_valuation": {A.fmt_atom(a): v
+                                            for a, v in rval.items()},
+                    "reference": _show(ro),
+                    "note": "the live path depends on %s, which the reference "
+                            "does not observe, and every reference row "
+                            "compatible with it has a different outcome (%d "
+                            "rows)" % ([A.fmt_atom(a) for a in unk],
+                                       len(comp))},
+                    "live_paths": len(live_paths),
+                    "ref_paths": len(ref_paths)}
         k, w = sorted(unknown.items())[0]
         return {"verdict": "unanalysable", "rows": rows, "atoms": list(k),
                 "witness": w, "live_paths": len(live_paths),
